@@ -96,6 +96,21 @@ P("C12",
                "widths >= 1"])
 
 
+P("C13",
+  rc={"quick": (8, 30000, 100, 8), "thorough": (12, 400000, 100, 8)},
+  exh={"quick": 8, "thorough": 8},
+  fuzz={"quick": None, "thorough": (4, 300000, 2048)},
+  rule="tapes decoded into (capacities, demands, cost matrix): 1..16 sinks, 1..80 (200 thorough) sources, "
+       "demands 1..50 or up to 1e9, capacity balanced / with slack / short then increaseCapacity(), costs "
+       "distance-like (6 norms), few distinct values, zero, large (to INT_MAX/(4*sinks)), signed, or float "
+       "through the scaling constructor; optimum from LEMON NetworkSimplex<long long>. non-trivial = the "
+       "capacity-blind cheapest assignment is infeasible (optimum > sum demand*min cost), distinct = hash of "
+       "the instance. Exhaustive part: all instances with 1..3 sinks x 1..3 sources, demands 1..2, capacities "
+       "1..3 (total capacity >= total demand), costs 0..2, against brute force over all plans.",
+  assumptions=["integer costs satisfy |c| <= INT_MAX/(4*nbSinks), the bound the float constructor's scaling establishes",
+               "total demand <= total capacity when solve() is called (after increaseCapacity() where needed)"])
+
+
 # ----------------------------------------------------------------------------
 def sh(cmd, **kw):
     return subprocess.run(cmd, stdout=subprocess.PIPE, stderr=subprocess.STDOUT, text=True, **kw)
@@ -548,7 +563,7 @@ def run_check(pid, tier, seed, opts):
     for k in range(nexh):
         prefix = os.path.join(rundir, "exh%d" % k)
         procs.append(Proc("exh%d" % k, [replay_exe, "--exhaustive", str(k), str(nexh), prefix],
-                          dict(base_env), prefix, budget * 3 + 120, "exh"))
+                          dict(base_env), prefix, budget * 2 + 60, "exh"))
     rc_cfg = cfg.get("rc", {}).get(tier)
     if rc_cfg:
         workers, cases, max_size, scale = rc_cfg
@@ -562,6 +577,7 @@ def run_check(pid, tier, seed, opts):
                 env["RC_PARAMS"] = "seed=%d max_success=%d max_size=%d" % (mix(seed, k + (0 if v == main_variant else 1000)), cases, max_size)
                 env["VERIF_TAPE_SCALE"] = str(scale)
                 env["VERIF_DEADLINE_S"] = str(budget)
+                env["VERIF_CASE_TIMEOUT_S"] = str(cfg.get("case_timeout", 30))
                 procs.append(Proc("rc-%s-%d" % (v, k), [bins[(pid, v)]["rc"], prefix], env, prefix,
                                   budget * 2 + 120, "rc"))
     fz = cfg["fuzz"][tier]
@@ -597,7 +613,7 @@ def run_check(pid, tier, seed, opts):
             hint = open(p.prefix + ".fail.txt").read() if os.path.exists(p.prefix + ".fail.txt") else ""
             candidates.append((ftape, hint, p))
             continue
-        if p.timed_out:
+        if p.timed_out or (p.kind == "rc" and p.rc == -14):
             cur = p.prefix + ".cur"
             if p.kind == "rc" and os.path.exists(cur):
                 ws = read_tape(cur)
@@ -609,6 +625,9 @@ def run_check(pid, tier, seed, opts):
             inconclusive.append("%s: hard timeout after %.0fs" % (p.name, p.wall))
             continue
         if p.rc == 0:
+            continue
+        if p.kind == "exh" and p.rc == -14:
+            inconclusive.append("%s: exhaustive shard stalled in one instance (watchdog)" % p.name)
             continue
         if p.kind == "rc" and p.rc == 3:
             inconclusive.append("%s: rapidcheck gave up" % p.name)
@@ -638,23 +657,30 @@ def run_check(pid, tier, seed, opts):
             inconclusive.append("%s: exited %s: %s" % (p.name, p.rc, p.out[-300:]))
 
     # ---- 4. confirm 3x, minimise crashes, classify ----------------------------
-    for tape, hint, p in candidates:
+    # at most 3 candidates per failure class are confirmed (bounds the time spent on a broken tree)
+    per_class = {}
+    kept = []
+    for c in candidates:
+        key = re.sub(r"\d+", "N", c[1])[:60]
+        per_class[key] = per_class.get(key, 0) + 1
+        if per_class[key] <= 3:
+            kept.append(c)
+    hang_s = cfg.get("hang_s", 45)
+    for tape, hint, p in kept:
         variant = main_variant
         m = re.match(r"rc-(\w+)-\d+", p.name)
         if m:
             variant = m.group(1)
         exe = bins[(pid, variant)]["replay"]
-        results = [replay_once(exe, tape, env_extra=base_env, timeout=max(120, cfg.get("hang_s", 120))) for _ in range(3)]
+        with cf.ThreadPoolExecutor(max_workers=3) as ex3:
+            results = list(ex3.map(lambda _: replay_once(exe, tape, env_extra=base_env, timeout=hang_s), range(3)))
         kinds = set(k for k, _ in results)
         if kinds == {"ok"} or "ok" in kinds:
             inconclusive.append("%s: failure '%s' did not reproduce 3/3 (%s)" % (p.name, hint[:120], [k for k, _ in results]))
             continue
         if kinds == {"timeout"}:
-            if cfg.get("hang_is_violation"):
-                sig = "hang: case exceeds %ds alone, 3/3" % max(120, cfg.get("hang_s", 120))
-            else:
-                inconclusive.append("%s: case times out (not judged)" % p.name)
-                continue
+            # a single case that normally takes milliseconds ran alone for hang_s seconds, three times
+            sig = "hang: case does not terminate within %ds when run alone, 3/3" % hang_s
         else:
             kind, sig = [r for r in results if r[0] != "timeout"][0]
             if kind == "crash":
